@@ -450,3 +450,20 @@ func ExpandStrings(t Term, mode string) Term {
 	}
 	return &Cmp{F: c.F, Args: args}
 }
+
+// NormErr replaces the (implementation defined) context argument of every error/2 term by '$ctx'.
+func NormErr(t Term) Term {
+	t = Deref(t)
+	c, ok := t.(*Cmp)
+	if !ok {
+		return t
+	}
+	args := make([]Term, len(c.Args))
+	for i, a := range c.Args {
+		args[i] = NormErr(a)
+	}
+	if c.F == "error" && len(args) == 2 {
+		args[1] = Atom("$ctx")
+	}
+	return &Cmp{F: c.F, Args: args}
+}
